@@ -227,6 +227,7 @@ def run(rep: Report, prog: Program, tier: str) -> None:
     # (j) codec payloads: the decoders run in a worker thread fed through a queue; whatever FFmpeg thinks of a payload must not end that thread, and the
     # flush request (an empty packet) must never be produced from received data
     decode_rule(rep, prog)
+    _sack_premise(rep, prog, tier)
 
 
 def decode_rule(rep: Report, prog: Program) -> None:
@@ -317,3 +318,9 @@ def decode_rule(rep: Report, prog: Program) -> None:
         else:
             rep.fail(mk_finding(prog, "C05", RULE, h, h.node, f"[{label}] {len(queued)} item(s) queued for the decoder, expected {want}: av.Packet(b'') is FFmpeg's flush request, after it every "
                                 "decode() fails and the decoder is dead for the rest of the session", construct="empty frame handed to the decoder" if not want else "frame not handed to the decoder"))
+
+
+def _sack_premise(rep: Report, prog: Program, tier: str) -> None:
+    from .common import import_rules
+    import_rules(rep, prog, tier, "C05", "C05-SACK", "C02", ["C02-LEAK"],
+                 "a nonsensical SACK (acknowledging TSNs never assigned) is ignored and the sender keeps working afterwards (rule C02-LEAK)", 3)
